@@ -17,7 +17,8 @@ func init() {
 // ---- symbolic data ----------------------------------------------------------
 
 func vhName(tag string) string {
-	return vPick(tag, "a", "b", "d/a", "d/b", "e/a")
+	// "da" starts with the prefix "d" without lying under it
+	return vPick(tag, "a", "b", "d/a", "d/b", "e/a", "da")
 }
 
 // vhHashShapes: hash objects may also be empty or carry two algorithms (menu 4), so that one object can be
